@@ -969,3 +969,191 @@ def settab(ctx, pid):
             ctx.bad(cst, f.loc(), "%s receives `%s` for its parameter %s" % (hname, tstr(bad[1])[:40], bad[0]))
         else:
             ctx.ok(cst, f.loc(), "%s receives keypath / node parts / value / mode in its parameter order" % hname)
+
+
+# ---------------------------------------------------------------------------
+def _subterms(t):
+    if isinstance(t, tuple) and t and isinstance(t[0], str):
+        yield t
+    if isinstance(t, tuple):
+        for x in t:
+            if isinstance(x, tuple):
+                yield from _subterms(x)
+
+
+def _grid(rels, x, base, lo=0, hi=6):
+    """values d in lo..hi of len(x) - base that satisfy every logged relation between len(x) and base + const"""
+    from ..sym import linform
+    lenx = ("len", x)
+    ok = set(range(lo, hi + 1))
+    used = 0
+    for op, l, r in rels:
+        a, b = linform(l), linform(r)
+        if a is None or b is None:
+            continue
+        atoms = dict(a[0])
+        for k_, v in b[0].items():
+            atoms[k_] = atoms.get(k_, 0) - v
+        atoms = {k_: v for k_, v in atoms.items() if v}
+        const = a[1] - b[1]
+        if set(atoms) != {lenx, base} or atoms[lenx] != -atoms[base] or abs(atoms[lenx]) != 1:
+            continue
+        used += 1
+        s_ = atoms[lenx]
+        keep = set()
+        for d in ok:
+            v = s_ * d + const
+            if {"==": v == 0, "!=": v != 0, ">": v > 0, ">=": v >= 0}[op]:
+                keep.add(d)
+        ok = keep
+    return ok, used
+
+
+@rule("SPLIT", ["C12"])
+def split(ctx, pid):
+    """The complete outcome table of BinaryTrie._set_kv_node.  With K the key path, P the node's path, R its
+    child, c = get_common_prefix_length(P, K[:len(P)]), dK = len(K) - c, dP = len(P) - c:
+      erase      : BLANK_HASH without recursion only for if_delete_subtrie and K a proper prefix of P
+      match      : child emptied -> BLANK_HASH; child a kv node -> kv(P + its path, its child); else kv(P, child)
+      mismatch   : unchanged exactly for an empty value or if_delete_subtrie; dK = 0 -> NodeOverrideError;
+                   new = leaf(value) iff dK = 1, kv(K[c+1:], leaf(value)) iff dK >= 2; old = R iff dP = 1,
+                   kv(P[c+1:], R) iff dP >= 2; bit K[c:c+1] = 1 puts new to the right; kv(P[:c], ..) on top iff c > 0."""
+    eng = S(ctx)
+    K_ = consts(ctx)
+    B1, BLANK = C(K_["BYTE_1"]), C(K_["BLANK_HASH"])
+    f = ctx.P.func(BIN + "._set_kv_node")
+    need = ["keypath", "node_hash", "left_child", "right_child", "value", "if_delete_subtrie"]
+    if any(n_ not in f.params for n_ in need):
+        raise AnalysisError("anchor vanished: parameters of BinaryTrie._set_kv_node")
+    K, NH, P, R, V, IDS = (("p", n_) for n_ in need)
+    KP = ("slice", K, None, ("len", P))
+    c = ("call", "trie.utils.nodes:get_common_prefix_length", (P, KP), ())
+    c_alt = ("call", "trie.utils.nodes:get_common_prefix_length", (KP, P), ())
+    SELF = ("self",)
+
+    def Hs(x):
+        return ("call", BIN + "._hash_and_save", (SELF, x), ())
+
+    def kv(a, b):
+        return ("call", ENC_KV, (a, b), ())
+
+    def br(a, b):
+        return ("call", ENC_BR, (a, b), ())
+
+    leaf = Hs(("call", "trie.utils.nodes:encode_leaf_node", (V,), ()))
+    sub = ("call", BIN + "._set", (SELF, R, ("slice", K, ("len", P), None), V, IDS), ())
+    pt = ("call", "trie.utils.nodes:parse_node", (("sub", ("attr", SELF, "db"), sub),), ())
+    probs = []
+    arms = {"erase": 0, "match-empty": 0, "match-kv": 0, "match-other": 0, "unchanged": 0, "refuse": 0, "split": 0}
+    for p, st in pq.states(ctx, f):
+        local = pq.local_raise(p) if p.exit[0] == "raise" else None
+        if p.exit[0] != "return" and local is None:
+            continue
+        rels = []
+        truth = {}
+        for t, pol, _ in st.log:
+            r = rel_norm(t, pol)
+            if r is not None:
+                rels.append(r)
+            else:
+                tt, pp = truth_norm(t, pol)
+                truth[tt] = pp
+        cc = c
+        if any(c_alt in list(_subterms(r)) for r in rels) or c_alt in truth:
+            cc = c_alt
+        node = p.exit[1]
+        called_set = any(ev.k == "call" and ev.a == "ok" and isinstance(ev.node, ast.Call)
+                         and any(t.kind == "def" and t.func.qual == BIN + "._set" for t in ctx.R.resolve_call(ev.node, f, count=False)) for ev in st.events)
+        matched = ("==", KP, P) in rels or ("==", P, KP) in rels
+        mism = ("!=", KP, P) in rels or ("!=", P, KP) in rels
+        if p.exit[0] == "return" and st.ret == BLANK and not called_set:
+            arms["erase"] += 1
+            pre = ("==", K, ("slice", P, None, ("len", K))) in rels or ("==", ("slice", P, None, ("len", K)), K) in rels
+            # (K == P is erased here or, equivalently, by the recursion of the matching arm: both bounds are the same function)
+            shorter = (">", ("len", P), ("len", K)) in rels or (">=", ("len", P), ("len", K)) in rels
+            if not (truth.get(IDS) is True and pre and shorter):
+                probs.append((node, "the node is erased without recursion on a path that does not establish if_delete_subtrie, len(keypath) <= len(path) and keypath == path[:len(keypath)]"))
+            continue
+        if matched:
+            if not called_set:
+                probs.append((node, "the key continues below this node but the child is not visited"))
+                continue
+            if p.exit[0] != "return":
+                continue
+            if ("==", sub, BLANK) in rels:
+                arms["match-empty"] += 1
+                want = BLANK
+            else:
+                kind = [r for r in rels if r[0] in ("==", "!=") and r[1] == ("sub", pt, C(0)) and r[2] == C(K_["KV_TYPE"])]
+                if not kind:
+                    probs.append((node, "the rebuilt node does not depend on the type of the new child"))
+                    continue
+                if kind[0][0] == "==":
+                    arms["match-kv"] += 1
+                    want = Hs(kv(eng.mk_bin("+", P, ("sub", pt, C(1))), ("sub", pt, C(2))))
+                else:
+                    arms["match-other"] += 1
+                    want = Hs(kv(P, sub))
+            if st.ret != want:
+                probs.append((node, "matching path: returns `%s`, expected `%s`" % (tstr(st.ret)[:80], tstr(want)[:80])))
+            continue
+        if not mism:
+            probs.append((node, "outcome on a path that neither matches nor mismatches the node's path"))
+            continue
+        # ---- mismatch arm
+        if p.exit[0] == "return" and st.ret == NH:
+            arms["unchanged"] += 1
+            if not (truth.get(V) is False or truth.get(IDS) is True):
+                probs.append((node, "the node is returned unchanged although the value is non-empty and this is not a subtrie delete"))
+            continue
+        if not (truth.get(V) is True and truth.get(IDS) is False):
+            probs.append((node, "the node is rebuilt on a path that does not establish a non-empty value and a plain set"))
+            continue
+        dK, usedK = _grid(rels, K, cc)
+        dP, usedP = _grid(rels, P, cc, lo=1)
+        if local is not None:
+            arms["refuse"] += 1
+            if dK != {0}:
+                probs.append((local, "NodeOverrideError is raised for len(keypath) - c in %s, expected exactly 0 (the key ends inside the node's path)" % sorted(dK)))
+            continue
+        arms["split"] += 1
+        c1 = eng.mk_bin("+", cc, C(1))
+        if dK == {1}:
+            new = leaf
+        elif dK == set(range(2, 7)):
+            new = Hs(kv(("slice", K, c1, None), leaf))
+        else:
+            probs.append((node, "the new key's node is built for len(keypath) - c in %s; the cases are exactly 1 (a leaf) and >= 2 (a kv node over keypath[c+1:]); 0 must be refused" % sorted(dK)))
+            continue
+        if dP == {1}:
+            old = R
+        elif dP == set(range(2, 7)):
+            old = Hs(kv(("slice", P, c1, None), R))
+        else:
+            probs.append((node, "the old child is re-attached for len(path) - c in %s; the cases are exactly 1 (the child itself) and >= 2 (a kv node over path[c+1:])" % sorted(dP)))
+            continue
+        sel = [r for r in rels if r[0] in ("==", "!=") and r[1] == ("slice", K, cc, c1) and r[2] == B1]
+        if not sel:
+            probs.append((node, "the branch is built without testing the diverging bit keypath[c:c+1] against 1"))
+            continue
+        newsub = Hs(br(old, new)) if sel[0][0] == "==" else Hs(br(new, old))
+        cz = truth.get(cc)
+        if cz is None:
+            z = [r for r in rels if r[1] == cc and r[2] == C(0)]
+            if z:
+                cz = {"!=": True, ">": True, "==": False}.get(z[0][0])
+        if cz is None:
+            probs.append((node, "the result does not depend on whether a common prefix remains (c > 0)"))
+            continue
+        want = Hs(kv(("slice", P, None, cc), newsub)) if cz else newsub
+        if st.ret != want:
+            probs.append((node, "split: returns `%s`, expected `%s`" % (tstr(st.ret)[:110], tstr(want)[:110])))
+    cst = "outcome-table:BinaryTrie._set_kv_node"
+    missing = [a for a, n_ in arms.items() if n_ == 0]
+    if probs:
+        node, why = probs[0]
+        ctx.bad(cst, f.loc(node) if isinstance(node, ast.AST) else f.loc(), why, witness={"problems": sorted({w for _, w in probs})[:8], "arms": arms})
+    elif missing:
+        ctx.bad(cst, f.loc(), "no path realises the arm(s) %s of the kv-node update" % ", ".join(missing), witness={"arms": arms})
+    else:
+        ctx.ok(cst, f.loc(), "erase / match (emptied, kv child, other child) / unchanged / refuse (dK = 0) / split (%d paths: leaf iff dK = 1, old child iff dP = 1, bit 1 -> right, kv(P[:c]) iff c > 0): every return value equals the table" % arms["split"])
